@@ -14,7 +14,7 @@ if [ "$1" = "--recheck" ]; then
   (cd "$wt" && go build ./... 2>&1 | grep -v 'ld:\|^#' | head -3)
   /verif/bin/verifchk -prop "$prop" -tier quick -repo "$wt" -verif /verif -no-evidence > "$wt/.check.log" 2>&1; rcq=$?
   grep -E 'VIOLATED|UNDECIDED|BROKEN' "$wt/.check.log" | cut -c1-300 | head -4
-  rules=$(grep -oE 'rule=[A-Z0-9-]+' "$wt/.check.log" | sort -u | paste -sd, )
+  rules=$(grep -E 'VIOLATED|UNDECIDED' "$wt/.check.log" | grep -oE 'rule=[A-Z0-9-]+' | sort -u | paste -sd, )
   python3 - "$d" "$rcq" "$rules" <<'PY'
 import json,sys
 d,rc,rules=sys.argv[1:4]
@@ -44,7 +44,7 @@ echo "RESULT name=$name demo_clean_rc=$r0 suite_rc=$rs demo_mutant_rc=$r1 check_
 if [ $r0 -eq 0 ] && [ $rs -eq 0 ] && [ $r1 -ne 0 ]; then
   d=/verif/seeded/$name; mkdir -p "$d"; cp "$src/patch.diff" "$d/patch.diff"; cp "$demo_src" "$d/demo_test.go.txt"; cp "$src/notes.md" "$d/notes.md" 2>/dev/null
   det=$([ $rcq -eq 1 ] && echo true || echo false)
-  rules=$(grep -oE 'rule=[A-Z0-9-]+' "$wt/.check.log" | sort -u | paste -sd, )
+  rules=$(grep -E 'VIOLATED|UNDECIDED' "$wt/.check.log" | grep -oE 'rule=[A-Z0-9-]+' | sort -u | paste -sd, )
   python3 - "$d" "$prop" "$demo_rel" "$det" "$rules" "$name" <<'PY'
 import json,sys
 d,prop,rel,det,rules,name=sys.argv[1:7]
